@@ -63,7 +63,8 @@ where
         where
             A: serde::de::SeqAccess<'d>,
         {
-            let mut array = Vec::with_capacity(seq.size_hint().unwrap_or_default());
+            // The announced length comes from the input, so it only serves as a bounded hint.
+            let mut array = Vec::with_capacity(seq.size_hint().unwrap_or_default().min(4096));
             while let Some(elem) = seq.next_element::<PossiblyUnknown<T>>()? {
                 if let PossiblyUnknown::Some(elem) = elem {
                     array.push(elem)
